@@ -63,7 +63,7 @@ def generate(seed, tier, k):
             "second_job": r.random() < 0.3,
             "x0": r.random() < 0.15,
         }
-        return doc
+        return gen.maybe_units(doc)
     fam = r.choice(["linear", "quadratic", "full", "simplex", "simplex2"])
     mesh = gen.gen_mesh(r, allow=(fam,), max_cells=12)
     doc = {"kind": kind, "seed": seed, "mesh": mesh, "c20": {"kind": kind, "format": r.choice(FORMATS)}}
